@@ -94,10 +94,6 @@ package parser
 //@   ensures result == WORD ==> len(l.word) >= 1
 //@   ensures result == IO_NUMBER ==> len(l.word) == 1 && l.word[0] is *ast.Lit
 //@   ensures result != WORD && result != IO_NUMBER && result >= 0 ==> len(l.word) == 0
-//@ func (*lexer).scanRedir
-//@   ensures result == WORD ==> len(l.word) >= 1
-//@   ensures result == IO_NUMBER ==> len(l.word) == 1 && l.word[0] is *ast.Lit
-//@   ensures result != WORD && result != IO_NUMBER && result >= 0 ==> len(l.word) == 0
 //@ func (*lexer).scanArithExpr
 //@   ensures result == RAE || result == -1
 //@ func (*lexer).scanOp
@@ -106,18 +102,44 @@ package parser
 //@ func (*lexer).lit
 //@   ensures len(l.word) >= old(len(l.word))
 
+// ---- here-document hand-off counter (C01, C08) ----
+//
+// l.heredoc.n is what makes the lexer wait, at the next newline, for the
+// parser to hand over a here-document redirection: it must count exactly the
+// here-document operators whose delimiter word was delivered.  One too many
+// and pop() waits for ever (C01); one too few and a body is lexed as commands
+// (C07, C08).
+//@ func (*heredoc).inc
+//@   ensures old(h.n) < 4294967295 ==> h.n == old(h.n) + 1
+//@ func (*lexer).scanRedir
+//@   ensures result == WORD ==> len(l.word) >= 1
+//@   ensures result == IO_NUMBER ==> len(l.word) == 1 && l.word[0] is *ast.Lit
+//@   ensures result != WORD && result != IO_NUMBER && result >= 0 ==> len(l.word) == 0
+//@   ensures[C01 C08] delimiter-counted: (tok#0 == HEREDOC || tok#0 == HEREDOCI) && result == WORD && old(l.heredoc.n) < 4294967295 ==> l.heredoc.n == old(l.heredoc.n) + 1
+//@   ensures[C01 C08] nothing-else-counted: !((tok#0 == HEREDOC || tok#0 == HEREDOCI) && result == WORD) ==> l.heredoc.n == old(l.heredoc.n)
+
 // The state functions that start by emitting the token they were chosen for.
 //@ func (*lexer).lexToken
 //@   requires tok == WORD || tok == IO_NUMBER || tok <= 0 || tokready(l)
 //@   requires tok == '\n' ==> len(l.word) == 0
 //@ func (*lexer).lexCmd
+//@   site OP = call parser.(*lexer).emit#1
+//@   assert[C01 C08] at call parser.(*lexer).emit#2: heredoc-delimiter-counted: site(OP) && (sitearg(OP, 1) == HEREDOC || sitearg(OP, 1) == HEREDOCI) && arg1 == WORD && old(l.heredoc.n) < 4294967295 ==> l.heredoc.n == old(l.heredoc.n) + 1
 //@   requires tok == WORD ==> len(l.word) >= 1
 //@   requires tok == IO_NUMBER ==> len(l.word) == 1 && l.word[0] is *ast.Lit
 //@   requires tok != WORD && tok != IO_NUMBER && tok >= 0 ==> len(l.word) == 0
 //@ func (*lexer).onCmdSuffix
+//@   site OP = call parser.(*lexer).emit#1
+//@   assert[C01 C08] at call parser.(*lexer).emit#2: heredoc-delimiter-counted: site(OP) && (sitearg(OP, 1) == HEREDOC || sitearg(OP, 1) == HEREDOCI) && arg1 == WORD && old(l.heredoc.n) < 4294967295 ==> l.heredoc.n == old(l.heredoc.n) + 1
 //@   requires tok == WORD ==> len(l.word) >= 1
 //@   requires tok == IO_NUMBER ==> len(l.word) == 1 && l.word[0] is *ast.Lit
 //@   requires tok != WORD && tok != IO_NUMBER && tok >= 0 ==> len(l.word) == 0
+//@ func (*lexer).lexCmdPrefix
+//@   site OP = call parser.(*lexer).emit#1
+//@   assert[C01 C08] at call parser.(*lexer).emit#3: heredoc-delimiter-counted: site(OP) && (sitearg(OP, 1) == HEREDOC || sitearg(OP, 1) == HEREDOCI) && arg1 == WORD && old(l.heredoc.n) < 4294967295 ==> l.heredoc.n == old(l.heredoc.n) + 1
+//@ func (*lexer).lexRedir
+//@   site OP = call parser.(*lexer).emit#1
+//@   assert[C01 C08] at call parser.(*lexer).emit#2: heredoc-delimiter-counted: site(OP) && (sitearg(OP, 1) == HEREDOC || sitearg(OP, 1) == HEREDOCI) && arg1 == WORD && old(l.heredoc.n) < 4294967295 ==> l.heredoc.n == old(l.heredoc.n) + 1
 //@ func (*lexer).lexSimpleCmd
 //@   requires len(l.word) >= 1
 //@ func (*lexer).lexSubshell
